@@ -17,6 +17,7 @@ Not decided: agreement to 1e-4 with adaptive quadrature, Gauss order thresholds,
             symmetry / diagonal copy optimisations (exact float equality of runtime geometry).
 """
 import ast
+import re
 from ..model import AnalysisError, walk_no_nested, norm, dotted
 from ..dataflow import product_of
 from ..rules import loops_in, loop_reaches_on_all_paths, first_touch_is_plain_assign
@@ -160,5 +161,42 @@ def run(ctx, ck):
     ck.rule('R-SIB.junction-geometry', 'outer half of a junction pulse on the neighbour segment touching the junction')
     from ._creation import check_neighbour_segment
     check_neighbour_segment(ctx, ck, rule='R-SIB.junction-geometry')
+    # the shortcuts of the fill (values copied along diagonals / from the upper triangle, potentials reused) are
+    # valid for a pair of pulses only if each pulse lies on ONE object, both on the same one, with equal segment
+    # lengths and directions, and neither is a non-vertical grounded pulse: the selector the image loop branches
+    # on must be computed from all five facts (each is necessary: without it a pair for which "same index
+    # distance = same geometry" does not hold takes the value of another pair)
+    ck.rule('R-DEP.shortcut-mask', 'the shortcut selector of the fill depends on every condition the shortcuts rely on')
+    FAM = {'same_geobj': 'each pulse on one object', 'same_len': 'equal segment lengths', 'same_dir': 'equal directions',
+           'geo_idx': 'both pulses on the same object', 'is_non_vertical_grounded': 'no non-vertical grounded pulse'}
+
+    def fams(roots):
+        out = set()
+        for r_ in roots:
+            if r_[0] in ('attr', 'attrname'):
+                for k_ in FAM:
+                    if re.search(r'(^|[._])%s(_\d)?$' % k_, r_[1]):
+                        out.add(k_)
+        return out
+    sel = {}
+    for c in ast.walk(l):
+        if isinstance(c, ast.Compare) and len(c.ops) == 1:
+            a_, b_ = c.left, c.comparators[0]
+            if isinstance(b_, ast.Name) and isinstance(a_, ast.Constant):
+                a_, b_ = b_, a_
+            if isinstance(a_, ast.Name) and isinstance(b_, ast.Constant) and isinstance(b_.value, int) and \
+               not isinstance(b_.value, bool):
+                fm = fams(fl.roots(a_, fl.node_id_of(c)))
+                if fm:
+                    sel.setdefault(a_.id, []).append((c, fm))
+    if not sel:
+        raise AnalysisError('matrix fill: no shortcut selector (an array compared with small integers in the image loop '
+                            'that is computed from the same-object / same-length / same-direction facts) found')
+    for nm_, lst in sorted(sel.items()):
+        missing = sorted(set(FAM) - set.intersection(*[fm for c, fm in lst]))
+        ck.ob('R-DEP.shortcut-mask', '%s|%s' % (FILL, nm_), not missing, f.loc(lst[0][0]),
+              'selector %s is computed from %s' % (nm_, sorted(set.intersection(*[fm for c, fm in lst]))) if not missing else
+              'the shortcut selector %s does not depend on %s (%s): pairs for which this does not hold take the copied / '
+              'reused value of another pair' % (nm_, ', '.join(missing), '; '.join(FAM[k_] for k_ in missing)))
     ck.undecided += ['agreement to 1e-4 with adaptive quadrature of the published formulation',
-                     'Gauss order thresholds; symmetry / diagonal copy optimisations']
+                     'Gauss order thresholds; that the five conditions are sufficient for the shortcuts']
